@@ -214,6 +214,16 @@ impl Family for Fam {
                     vec![-1]
                 }
             }
+            16 => {
+                let _ = self.sk.theta();
+                for s in [NumStdDev::One, NumStdDev::Two, NumStdDev::Three] {
+                    let lb = self.sk.lower_bound(s);
+                    let ub = self.sk.upper_bound(s);
+                    let _ = (lb, ub);
+                }
+                query_compact(&self.sk.compact(false));
+                vec![self.sk.is_estimation_mode() as i128]
+            }
             15 => {
                 let compressed = a[0] != 0;
                 match self.slot.take() {
